@@ -72,6 +72,24 @@ CLAIMS = {
             "RateLimitedEntity/Inductor forward, queue or drop each request exactly once in arrival order with a single outstanding poll.",
             "Trusted: exact nanosecond arithmetic of Duration/Instant; positive rates. Interval bounds themselves are numeric and not decided.",
             "DESIGN.md §5 C10"),
+    "C11": ("guard-dominance / feasible-path rules over every Raft handler + monotone-write rules + RPC schema agreement",
+            "Decides that each Raft handler obeys the guard discipline the safety proofs rest on (vote rule, one vote per term, monotone term/"
+            "commit/applied, current-term quorum commit, prev-log check before append, conflict-only truncation, CANDIDATE+quorum leadership, "
+            "verified-prefix match_index, future purge on truncation). The safety theorems over histories are NOT decided.",
+            "Trusted: handlers atomic (checked); network delivers payloads unchanged.",
+            "DESIGN.md §5 C11"),
+    "C12": ("guard-dominance / feasible-path rules over acceptor, proposer and learner state writes in the three Paxos variants + dead-information and schema agreement",
+            "Decides rule conformance: ballot order, non-decreasing promised ballot, accept only at/above promise, once-per-ballot quorum step, "
+            "highest-accepted value selection, write-once decision, intersecting flexible quorums, consumed promise contents, leader change "
+            "only with a larger term, read-then-increment fencing tokens. Agreement/validity/termination as theorems are NOT decided.",
+            "Trusted: handlers atomic (checked).",
+            "DESIGN.md §5 C12"),
+    "C13": ("typestate check of every write to MemberInfo.state / incarnation under must-facts + protocol schema agreement",
+            "Decides only the member-state machine clause: →SUSPECT from ALIVE, →DEAD from SUSPECT or by not-older gossip, →ALIVE only on direct "
+            "evidence from SUSPECT or with a strictly higher incarnation; incarnations only grow. The accuracy/completeness/phi clauses are "
+            "numeric timing statements and are not decided by this family.",
+            "Trusted: handlers atomic (checked).",
+            "DESIGN.md §5 C13"),
 }
 
 NOT_YET = "rule pack not built yet in this session (see DESIGN.md §11); no check is claimed for it"
